@@ -1,6 +1,8 @@
 """C06 - requested mask is used; automatic mask minimises the ISO penalty score."""
+import os
 import random
 
+from refmodel import qr
 from vmon import gen, monitors, oracle
 from vmon.props import common
 
@@ -13,9 +15,10 @@ RULE = ('symbols with automatic mask (random contents over versions weighted to 
         'format word and the unmasked stream must decode (zero syndromes); make_sequence with a requested mask is '
         'included; distinct = (version, chosen mask, auto/requested) combinations')
 ASSUMPTIONS = common.ASSUME_QR + ['reading fixed in DESIGN 4.1: the dark module counts as light while masks are scored']
-REQUIRED = ['evaluations', 'encode_observed', 'symbols_decoded', 'auto_mask_checked', 'auto_mask_checked_micro',
+REQUIRED = ['cases_under_python_O', 'evaluations', 'encode_observed', 'symbols_decoded', 'auto_mask_checked', 'auto_mask_checked_micro',
             'requested_mask_checked']
 TIMEOUT = {'quick': 3600, 'thorough': 21600}
+OPT_SLICE = {'quick': 120, 'thorough': 1500}     # cases re-run by one more worker under python -O (core.run_sharded)
 
 
 def gen_cases(tier, seed):
@@ -113,8 +116,125 @@ def after(case, q, ex, rec):
                 rec.count('near_ties_within_10_points')
 
 
+# ------------------------------------------------------------------ the scoring functions themselves, hooked
+# An optional second monitor (nothing here is REQUIRED: a refactoring may remove or reshape these private functions,
+# and then this monitor simply observes nothing). While the workload runs, `encoder.evaluate_mask` /
+# `encoder.evaluate_micro_mask` are rebound to recording wrappers; every real call whose first argument is a square
+# 0/1 matrix is compared with the reference penalty of *that matrix* (ISO 7.8.3; the pinned non-overlapping N3 scan of
+# the open finding is accepted as well). Only if all of these real calls agree - i.e. the function demonstrably means
+# "penalty of this matrix" - it is also asked about matrices the workload hardly ever produces: dark ratios exactly on
+# the 5 % steps of N4 (40 % / 60 % of 25 x 25, 45 x 45 modules ...), Micro edges that are completely dark.
+_HOOK = {'qr': [0, 0], 'micro': [0, 0], 'orig': {}}
+
+
+def _is_binary_square(m):
+    try:
+        n = len(m)
+        return n >= 11 and all(len(r) == n and all(v in (0, 1) for v in r) for r in m)
+    except TypeError:
+        return False
+
+
+def _judge_qr(m, got):
+    p = qr.penalty_qr(m)
+    iso = sum(p)
+    return got == iso or got == p[0] + p[1] + oracle.n3_nonoverlap(m) + p[3], iso
+
+
+def install_score_hooks(rec):
+    from segno import encoder
+    for name, kind in (('evaluate_mask', 'qr'), ('evaluate_micro_mask', 'micro')):
+        orig = getattr(encoder, name, None)
+        if not callable(orig) or name in _HOOK['orig']:
+            continue
+        _HOOK['orig'][name] = orig
+
+        def wrapper(*a, __orig=orig, __kind=kind, **k):
+            res = __orig(*a, **k)
+            try:
+                if a and isinstance(res, int) and _is_binary_square(a[0]):
+                    m = [list(r) for r in a[0]]
+                    if __kind == 'qr':
+                        ok, want = _judge_qr(m, res)
+                    else:
+                        want = qr.score_micro(m)
+                        ok = res == want
+                    _HOOK[__kind][0] += 1
+                    rec.count('internal_score_calls_compared')
+                    if not ok:
+                        _HOOK[__kind][1] += 1
+                        rec.deviation('C06', 'internal-score-differs', {'function': __kind, 'size': len(m), 'got': res, 'reference': want,
+                                                                        'dark': sum(map(sum, m)), 'where': 'real call'})
+            except Exception:  # noqa: BLE001   the monitor never disturbs the call it watches
+                rec.count('internal_score_monitor_errors')
+            return res
+        setattr(encoder, name, wrapper)
+
+
+def synthetic_scoring(rec, rng, tier):
+    """Asks the hooked scoring functions about boundary matrices - only after the real calls have shown what they mean."""
+    from segno import encoder
+    if 'evaluate_mask' in _HOOK['orig'] and _HOOK['qr'][0] >= 50 and _HOOK['qr'][1] == 0:
+        fn = _HOOK['orig']['evaluate_mask']
+        for size in ((21, 25, 45) if tier == 'quick' else (21, 25, 29, 45, 65, 85)):
+            n = size * size
+            for k in range(2, 19):
+                for d in sorted({n * k // 20, -(-n * k // 20), n * k // 20 + 1, n * k // 20 - 1}):
+                    if not 0 < d < n:
+                        continue
+                    cells = [1] * d + [0] * (n - d)
+                    rng.shuffle(cells)
+                    rows = tuple(bytearray(cells[r * size:(r + 1) * size]) for r in range(size))
+                    try:
+                        got = fn(rows, size, size)
+                    except Exception:  # noqa: BLE001  other signature: nothing to compare
+                        rec.count('internal_score_synthetic_not_callable')
+                        return
+                    ok, want = _judge_qr([list(r) for r in rows], got)
+                    rec.count('internal_score_synthetic_compared')
+                    if n * k % 20 == 0 and d == n * k // 20:
+                        rec.count('internal_score_exact_n4_steps')
+                    if not ok:
+                        rec.deviation('C06', 'internal-score-differs', {'function': 'qr', 'size': size, 'got': got, 'reference': want,
+                                                                        'dark': d, 'dark_ratio': '%d/%d' % (d, n), 'where': 'synthetic matrix'},
+                                      case={'synthetic': True, 'size': size, 'dark': d})
+    if 'evaluate_micro_mask' in _HOOK['orig'] and _HOOK['micro'][0] >= 50 and _HOOK['micro'][1] == 0:
+        fn = _HOOK['orig']['evaluate_micro_mask']
+        for size in (11, 13, 15, 17):
+            for trial in range(40):
+                rows = [bytearray(rng.choice([0, 1]) for _ in range(size)) for _ in range(size)]
+                if trial % 4 == 0:
+                    for i in range(1, size):
+                        rows[i][size - 1] = 1           # right edge completely dark
+                if trial % 4 == 1:
+                    rows[size - 1][1:] = bytearray([1] * (size - 1))   # lower edge completely dark
+                if trial % 8 == 2:
+                    for i in range(1, size):
+                        rows[i][size - 1] = 1
+                    rows[size - 1][1:] = bytearray([1] * (size - 1))
+                try:
+                    got = fn(tuple(rows), size, size)
+                except Exception:  # noqa: BLE001
+                    rec.count('internal_score_synthetic_not_callable')
+                    return
+                want = qr.score_micro([list(r) for r in rows])
+                rec.count('internal_score_synthetic_compared')
+                if got != want:
+                    rec.deviation('C06', 'internal-score-differs', {'function': 'micro', 'size': size, 'got': got, 'reference': want,
+                                                                    'where': 'synthetic matrix'}, case={'synthetic': True, 'size': size})
+
+
 def run_cases(cases, rec, tier='quick', seed='0'):
+    import random as _random
+    install_score_hooks(rec)
+    replay_synthetic = any(c.get('synthetic') for c in cases)
+    if replay_synthetic:
+        # replay of a deviation found on a synthetic matrix: calibrate the hooks on some real calls first
+        cases = [c for c in cases if not c.get('synthetic')] or \
+            [common.mk(gen.content_for_bits('byte', 5 + i), micro=bool(i % 2) and i < 12) for i in range(40)]
     common.run_encode_cases(cases, rec, {'C06'}, after=after)
+    if os.environ.get('VERIF_SHARD', '0') in ('0', '') or replay_synthetic:
+        synthetic_scoring(rec, _random.Random(int(seed) * 31 + 6), tier)
 
 
 def main_phase(tier, seed, rec):
